@@ -6,6 +6,8 @@ import (
 	"fmt"
 	"go/token"
 	"go/types"
+	"math"
+	"math/big"
 	"sort"
 
 	"golang.org/x/tools/go/ssa"
@@ -60,8 +62,20 @@ func binopS(fr *frame, op token.Token, t types.Type, x, y value) value {
 	}
 	switch op {
 	case token.QUO, token.REM:
-		switch y.(type) {
-		case float32, float64, complex64, complex128:
+		switch yv := y.(type) {
+		case float64:
+			// exact-real harnesses: a concrete quotient that is not exactly representable stays exact
+			if fr.i.cfg.ExactReal && op == token.QUO {
+				xv := x.(float64)
+				if yv != 0 && !math.IsInf(xv, 0) && !math.IsNaN(xv) && !math.IsInf(yv, 0) && !math.IsNaN(yv) {
+					q := new(big.Rat).Quo(new(big.Rat).SetFloat64(xv), new(big.Rat).SetFloat64(yv))
+					if f, exact := q.Float64(); !exact {
+						_ = f
+						return sym{k: skReal, bk: types.Float64, t: ratLit(q)}
+					}
+				}
+			}
+		case float32, complex64, complex128:
 		default:
 			if asU64(y) == 0 {
 				panic(goPanic{"integer divide by zero"})
